@@ -14,7 +14,8 @@ structure EntriesOk (es : List Entry) : Prop where
   nodup : (es.map (·.path)).Nodup
   fresh : ∀ e ∈ es, e.hardlink = none
   leaves : ∀ e ∈ es, e.ftype ≠ .dir →
-    (e.ftype = .reg ∨ e.ftype = .lnk ∨ e.ftype = .fifo) ∧ (e.ftype = .lnk → e.mode = 0o777)
+    (e.ftype = .reg ∨ e.ftype = .lnk ∨ e.ftype = .fifo) ∧
+      (e.ftype = .lnk → e.mode = 0o777 ∧ kindOf e ≠ .lnk [])
   modes : ∀ e ∈ es, e.mode < 4096
   links : ∀ a ∈ es, ∀ b ∈ es, a.ftype ≠ .dir → b.ftype ≠ .dir → a.ino = b.ino →
     a.ftype = b.ftype ∧ a.mode = b.mode ∧ a.mtime = b.mtime ∧ a.payload = b.payload ∧ a.nlink = b.nlink
@@ -399,7 +400,7 @@ theorem restoreEntry_mkdir (o : Opts) (ho : OptsOk o) (w : WD) (e : Entry) (dm :
 
 theorem restoreEntry_create (o : Opts) (ho : OptsOk o) (w : WD) (e : Entry)
     (hh : e.hardlink = none) (hl : (e.ftype = .reg ∨ e.ftype = .lnk ∨ e.ftype = .fifo))
-    (hlm : e.ftype = .lnk → e.mode = 0o777)
+    (hlm : e.ftype = .lnk → e.mode = 0o777 ∧ kindOf e ≠ .lnk [])
     (hnone : w.fs.lookup e.path = none) (hcan : w.fs.canCreate o.root e.path = true) :
     restoreEntry o w e =
       (WD.mk (w.fs.add e.path (FNode.mk w.next (kindOf e) e.mode (some e.mtime))) w.fixups (w.next + 1), .ok) := by
@@ -411,8 +412,10 @@ theorem restoreEntry_create (o : Opts) (ho : OptsOk o) (w : WD) (e : Entry)
     simp only [hh, hl, hnone, hcan, hm, ho.time]
     cases hkk : kindOf e <;> simp_all
   · obtain ⟨t, ht⟩ := kindOf_lnk hl
+    have hne : t ≠ [] := by
+      intro h; exact (hlm hl).2 (by rw [ht, h])
     simp only [hh, hl, hnone, hcan, hm, ho.time]
-    simp [ht, hlm hl]
+    simp [ht, (hlm hl).1, hne]
   · have hk : ∀ t, kindOf e ≠ .lnk t := kindOf_not_lnk (by simp [hl])
     simp only [hh, hl, hnone, hcan, hm, ho.time]
     cases hkk : kindOf e <;> simp_all
